@@ -187,7 +187,15 @@ def chain_source(desc):
         last = k == nseg - 1
         nurs = bool(desc["nurs"][k]) and is_task
         deep = bool(desc["deep"][k])
-        if is_task:
+        if is_task and k > 0 and hops[k - 1] == "R":
+            # trio.from_thread.run_sync: a SYNC function run by the host task inside its
+            # to_thread.run_sync frame (the glue registers nothing for from_thread.run_sync)
+            src.add(0, f"def seg{k}(W):")
+            src.add(1, f"W.seg_enter({k})")
+            src.add(1, f"W.settle({k - 1})")
+            src.add(1, "W.observe()")
+            src.add(1, "W.ready.set()")
+        elif is_task:
             src.add(0, f"async def seg{k}(W):")
             src.add(1, f"W.seg_enter({k})")
             if deep:
@@ -222,7 +230,9 @@ def chain_source(desc):
                 src.add(1, f"return seg{k}_b(W)")
                 src.add(0, f"def seg{k}_b(W):")
             if not last:
-                if hops[k] == "H":
+                if hops[k] == "R":
+                    src.add(1, f"trio.from_thread.run_sync(seg{k + 1}, W)")
+                elif hops[k] == "H":
                     src.add(1, f"trio.from_thread.run(seg{k + 1}, W)")
                 else:
                     assert hops[k] == "S"
@@ -246,9 +256,11 @@ def chain_valid(desc):
             if h != "T":
                 return False
         else:
-            if h not in "HS":
+            if h not in "HSR":
                 return False
-            if h == "H" and i == 0 and foreign:
+            if h in "HR" and i == 0 and foreign:
+                return False
+            if h == "R" and (i != len(hops) - 1 or desc["end"] != "inside" or desc.get("shared")):
                 return False
         is_task = not is_task
     if desc["end"] in ("inside", "limiter") and not is_task:
@@ -337,6 +349,17 @@ class World:
             rid = 0 if k == 0 else 100 + k
             self.task_ids[id(t)] = rid
             self.tasks[rid] = t
+
+    def settle(self, k):
+        """wait (briefly, from the Trio thread) until the worker thread of segment k sits in
+        SimpleQueue.get() inside _send_message_to_trio, so that its frames no longer change"""
+        import time
+        th = self.seg_thread[k][0]
+        for _ in range(2000):
+            top = sys._current_frames().get(th.ident)
+            if top is not None and top.f_code.co_name == "_send_message_to_trio":
+                return
+            time.sleep(0.0005)
 
     def thr_enter(self, k):
         self.seg_thread[k] = (threading.current_thread(), sys._getframe(1))
